@@ -21,6 +21,21 @@ use stellar_tokens::rwa::extensions::doc_manager::Document;
 use stellar_tokens::rwa::identity_claims::Claim;
 use stellar_tokens::rwa::identity_registry_storage::{CountryData, CountryRelation, IdentityProfile, IdentityType, IndividualCountryRelation};
 
+/// A query the model says must be answered: a failure is a violation of "always answers every query"
+/// (signature C20/getter/<registry>/<fn>/failed); the history is abandoned, the shard goes on.
+macro_rules! getv {
+    ($rep:expr, $reg:expr, $e:expr, $c:expr, $f:expr, $a:expr) => {
+        match invoke($e, $c, $f, $a) {
+            Ok(v) => v,
+            Err(err) => {
+                $rep.check("getter", false, &format!("C20/getter/{}/{}/failed", $reg, $f), || format!("{} was refused: {:?} ({})", $f, err, crate::world::last_error()));
+                $rep.end_history();
+                return;
+            }
+        }
+    };
+}
+
 fn as_set<T: Ord + Clone>(v: &[T]) -> (BTreeSet<T>, bool) {
     let s: BTreeSet<T> = v.iter().cloned().collect();
     let nodup = s.len() == v.len();
@@ -217,10 +232,10 @@ fn context_rules(cfg: &Cfg, rep: &mut Report, h: u64, steps: usize, grow: bool) 
             }
         }
         // ---- every getter ----
-        let cnt: u32 = invoke(e, &acct, "get_context_rules_count", args!(e)).unwrap();
+        let cnt: u32 = getv!(rep, "context-rules", e, &acct, "get_context_rules_count", args!(e));
         rep.check("ref", cnt as usize == rules.len(), "C20/ref/context-rules/count", || format!("count {cnt}, model {}", rules.len()));
         for (ti, t) in types.iter().enumerate() {
-            let rs: SVec<ContextRule> = invoke(e, &acct, "get_context_rules", args!(e, t.clone())).unwrap();
+            let rs: SVec<ContextRule> = getv!(rep, "context-rules", e, &acct, "get_context_rules", args!(e, t.clone()));
             let got: Vec<u32> = rs.iter().map(|x| x.id).collect();
             let (gs, nodup) = as_set(&got);
             let want_s: BTreeSet<u32> = rules.iter().filter(|(_, x)| x.ty == ti).map(|(i, _)| *i).collect();
@@ -344,11 +359,11 @@ fn cti_registry(cfg: &Cfg, rep: &mut Report, h: u64, steps: usize, grow: bool) {
             rep.count("issuers_at_limit");
         }
         // getters, both directions
-        let gt: SVec<u32> = invoke(e, &c, "get_claim_topics", args!(e)).unwrap();
+        let gt: SVec<u32> = getv!(rep, "topics-and-issuers", e, &c, "get_claim_topics", args!(e));
         let gtv: Vec<u32> = gt.iter().collect();
         let (gts, nd) = as_set(&gtv);
         rep.check("ref", gts == topics && nd, "C20/ref/claim-topics-and-issuers/get_claim_topics", || format!("{gtv:?} vs {topics:?}"));
-        let gi: SVec<Address> = invoke(e, &c, "get_trusted_issuers", args!(e)).unwrap();
+        let gi: SVec<Address> = getv!(rep, "topics-and-issuers", e, &c, "get_trusted_issuers", args!(e));
         let giv: Vec<usize> = gi.iter().map(|a| issuers.iter().position(|x| *x == a).unwrap_or(usize::MAX)).collect();
         let (gis, nd) = as_set(&giv);
         rep.check("ref", gis == it.keys().cloned().collect() && nd, "C20/ref/claim-topics-and-issuers/get_trusted_issuers", || format!("{giv:?} vs {:?}", it.keys()));
@@ -383,13 +398,13 @@ fn cti_registry(cfg: &Cfg, rep: &mut Report, h: u64, steps: usize, grow: bool) {
                     rep.violation("C20/ref/claim-topics-and-issuers/issuer-existence", format!("issuer {ii}: contract {:?}, model {m:?}", g.map(|v| v.len())));
                 }
             }
-            let tr: bool = invoke(e, &c, "is_trusted_issuer", args!(e, issuers[ii])).unwrap();
+            let tr: bool = getv!(rep, "topics-and-issuers", e, &c, "is_trusted_issuer", args!(e, issuers[ii]));
             rep.check("ref", tr == it.contains_key(&ii), "C20/ref/claim-topics-and-issuers/is_trusted_issuer", || format!("issuer {ii}: {tr}"));
             let x = 1 + rng.below(nt as u64) as u32;
             let hc: Result<bool, Fail> = invoke(e, &c, "has_claim_topic", args!(e, issuers[ii], x));
             rep.check("ref", hc.unwrap_or(false) == it.get(&ii).map_or(false, |s| s.contains(&x)), "C20/ref/claim-topics-and-issuers/has_claim_topic", || format!("issuer {ii} topic {x}"));
         }
-        let m: Map<u32, SVec<Address>> = invoke(e, &c, "get_claim_topics_and_issuers", args!(e)).unwrap();
+        let m: Map<u32, SVec<Address>> = getv!(rep, "topics-and-issuers", e, &c, "get_claim_topics_and_issuers", args!(e));
         let mk: BTreeSet<u32> = m.keys().iter().collect();
         rep.check("ref", mk == topics, "C20/ref/claim-topics-and-issuers/map-keys", || format!("{mk:?} vs {topics:?}"));
         rep.evaluations += (nt as usize + ni + 3) as u64;
@@ -437,7 +452,9 @@ fn issuer_keys(cfg: &Cfg, rep: &mut Report, h: u64, steps: usize, mode: u32) {
                     (0, 1 + rng.below(ntop as u64) as u32, rng.idx(2), rng.chance(1, 2))
                 }
             }
-            2 => (if rng.chance(9, 10) { step % nkeys } else { rng.idx(nkeys) }, 1, 0, rng.chance(19, 20)),
+            // mostly (key, topic 1, registry 0); the second registry makes an already listed key come back
+            // for the same topic - which must stay possible when the topic's key list is full
+            2 => (if rng.chance(9, 10) { step % nkeys } else { rng.idx(nkeys) }, 1, if rng.chance(1, 4) { 1 } else { 0 }, rng.chance(19, 20)),
             _ => (rng.idx(nkeys), 1 + rng.below(3) as u32, rng.idx(2), rng.chance(3, 5)),
         };
         let (kb, scheme) = &keys[ki];
@@ -451,6 +468,9 @@ fn issuer_keys(cfg: &Cfg, rep: &mut Report, h: u64, steps: usize, mode: u32) {
             desc = format!("allow_key(key {ki}, registry {ri}, topic {t})");
             r = invoke(e, &issuer, "allow_key", args!(e, pk, regs[ri].clone(), *scheme, t));
             rep.case(format!("keys/allow/pairs-of-key={}/keys-of-topic={}/dup={}/{}", fill(20, have.len()), fill(50, tk.len()), have.contains(&(t, ri)), tag(&r)));
+            if tk.len() >= 50 && tk.contains(&ki) && !have.contains(&(t, ri)) && have.len() < 20 {
+                rep.count("listed_key_paired_again_at_full_topic");
+            }
             if r.is_ok() && !empty_key {
                 pairs.entry(ki).or_default().push((t, ri));
                 if have.len() + 1 == 20 {
@@ -496,11 +516,11 @@ fn issuer_keys(cfg: &Cfg, rep: &mut Report, h: u64, steps: usize, mode: u32) {
             wv.sort();
             rep.check("ref", gv == wv, "C20/ref/claim-issuer-keys/key-to-registries", || format!("key {kk}: registries {gv:?}, model {wv:?}"));
             for tt in [t, 1] {
-                let a: bool = invoke(e, &issuer, "key_allowed_for_topic", args!(e, pkb.clone(), *sc, tt)).unwrap();
+                let a: bool = getv!(rep, "claim-issuer-keys", e, &issuer, "key_allowed_for_topic", args!(e, pkb.clone(), *sc, tt));
                 rep.check("ref", a == pairs.get(&kk).map_or(false, |v| v.iter().any(|p| p.0 == tt)), "C20/ref/claim-issuer-keys/key_allowed_for_topic", || format!("key {kk} topic {tt}: {a}"));
             }
             for rr in 0..2 {
-                let a: bool = invoke(e, &issuer, "key_allowed_for_registry", args!(e, pkb.clone(), *sc, regs[rr].clone())).unwrap();
+                let a: bool = getv!(rep, "claim-issuer-keys", e, &issuer, "key_allowed_for_registry", args!(e, pkb.clone(), *sc, regs[rr].clone()));
                 rep.check("ref", a == pairs.get(&kk).map_or(false, |v| v.iter().any(|p| p.1 == rr)), "C20/ref/claim-issuer-keys/key_allowed_for_registry", || format!("key {kk} registry {rr}: {a}"));
             }
         }
@@ -586,7 +606,7 @@ fn token_binder(cfg: &Cfg, rep: &mut Report, h: u64, steps: usize, to_max: bool)
             rep.count("binder_at_max");
         }
         // getters
-        let lt: SVec<Address> = invoke(e, &c, "linked_tokens", args!(e)).unwrap();
+        let lt: SVec<Address> = getv!(rep, "token-binder", e, &c, "linked_tokens", args!(e));
         let idx_of: BTreeMap<Address, usize> = toks.iter().enumerate().map(|(i, a)| (a.clone(), i)).collect();
         let lv: Vec<usize> = lt.iter().map(|a| *idx_of.get(&a).unwrap_or(&usize::MAX)).collect();
         let (ls, nd) = as_set(&lv);
@@ -615,7 +635,7 @@ fn token_binder(cfg: &Cfg, rep: &mut Report, h: u64, steps: usize, to_max: bool)
         rep.check("ref", beyond.is_err(), "C20/ref/token-binder/index-count-answered", || format!("get_token_by_index({cnt}) answered"));
         for _ in 0..4 {
             let t = rng.idx(universe);
-            let b: bool = invoke(e, &c, "is_token_bound", args!(e, toks[t].clone())).unwrap();
+            let b: bool = getv!(rep, "token-binder", e, &c, "is_token_bound", args!(e, toks[t].clone()));
             rep.check("ref", b == is_bound[t], "C20/ref/token-binder/is_token_bound", || format!("token {t}: {b}, model {}", is_bound[t]));
         }
         rep.evaluations += probes.len() as u64 + 6;
@@ -677,7 +697,7 @@ fn documents(cfg: &Cfg, rep: &mut Report, h: u64, steps: usize, to_max: bool) {
         if docs.len() == 5000 {
             rep.count("docs_at_max");
         }
-        let cnt: u32 = invoke(e, &c, "get_document_count", args!(e)).unwrap();
+        let cnt: u32 = getv!(rep, "documents", e, &c, "get_document_count", args!(e));
         rep.check("ref", cnt as usize == docs.len(), "C20/ref/documents/count", || format!("count {cnt}, model {}", docs.len()));
         let by_name: BTreeMap<[u8; 32], usize> = docs.keys().map(|i| (name(*i), *i)).collect();
         let check_doc = |rep: &mut Report, nm: &BytesN<32>, d: &Document, how: &str| {
@@ -714,7 +734,7 @@ fn documents(cfg: &Cfg, rep: &mut Report, h: u64, steps: usize, to_max: bool) {
             rep.check("ref", seen.len() == docs.len(), "C20/ref/documents/enumeration-incomplete", || format!("enumerated {} distinct documents, model {}", seen.len(), docs.len()));
             let mut total = 0u32;
             for b in 0..4u32 {
-                let v: SVec<(BytesN<32>, Document)> = invoke(e, &c, "get_documents", args!(e, b)).unwrap();
+                let v: SVec<(BytesN<32>, Document)> = getv!(rep, "documents", e, &c, "get_documents", args!(e, b));
                 total += v.len();
             }
             rep.check("ref", total == cnt, "C20/ref/documents/bucket-listing", || format!("buckets hold {total} documents, count {cnt}"));
@@ -845,7 +865,7 @@ fn identities(cfg: &Cfg, rep: &mut Report, h: u64, steps: usize) {
             let have = ident.get(&x).map_or(0, |v| v.1.len()) as u32;
             let at: Result<CountryData, Fail> = invoke(e, &c, "get_country_data", args!(e, accounts[x], have));
             rep.check("ref", at.is_err(), "C20/ref/identities/country-index-len-answered", || format!("A{x}: get_country_data({have}) answered"));
-            let rt: Option<Address> = invoke(e, &c, "get_recovered_to", args!(e, accounts[x])).unwrap();
+            let rt: Option<Address> = getv!(rep, "identities", e, &c, "get_recovered_to", args!(e, accounts[x]));
             let ri = rt.map(|a| accounts.iter().position(|y| *y == a).unwrap_or(usize::MAX));
             rep.check("ref", ri == recovered.get(&x).cloned(), "C20/ref/identities/recovery-link", || format!("A{x}: recovered to {ri:?}, model {:?}", recovered.get(&x)));
         }
@@ -901,7 +921,7 @@ fn claims(cfg: &Cfg, rep: &mut Report, h: u64, steps: usize) {
         rep.count(&format!("claims:{}", if r.is_ok() { "ok" } else { "refused" }));
         rep.check("ref", r.is_ok() == want, "C20/ref/claims/outcome", || format!("{desc}: expected ok={want}, got {r:?}"));
         for tt in 1..=3u32 {
-            let v: SVec<BytesN<32>> = invoke(e, &c, "get_claim_ids_by_topic", args!(e, tt)).unwrap();
+            let v: SVec<BytesN<32>> = getv!(rep, "claims", e, &c, "get_claim_ids_by_topic", args!(e, tt));
             let gv: Vec<[u8; 32]> = v.iter().map(|b| b.to_array()).collect();
             let (gs, nd) = as_set(&gv);
             let ws: BTreeSet<[u8; 32]> = held.keys().filter(|(_, t2)| *t2 == tt).map(|(i2, t2)| cid(*i2, *t2)).collect();
@@ -966,12 +986,12 @@ fn compliance(cfg: &Cfg, rep: &mut Report, h: u64, steps: usize) {
             rep.count("modules_at_limit");
         }
         for (hi, hkk) in hooks.iter().enumerate() {
-            let v: SVec<Address> = invoke(e, &c, "get_modules_for_hook", args!(e, hkk.clone())).unwrap();
+            let v: SVec<Address> = getv!(rep, "compliance-modules", e, &c, "get_modules_for_hook", args!(e, hkk.clone()));
             let gv: Vec<usize> = v.iter().map(|a| mods.iter().position(|x| *x == a).unwrap_or(usize::MAX)).collect();
             let (gs, nd) = as_set(&gv);
             rep.check("ref", gs == reg[hi] && nd, "C20/ref/compliance-modules/modules-for-hook", || format!("hook {hi}: {gv:?} vs {:?}", reg[hi]));
         }
-        let b: bool = invoke(e, &c, "is_module_registered", args!(e, hooks[hk].clone(), mods[m].clone())).unwrap();
+        let b: bool = getv!(rep, "compliance-modules", e, &c, "is_module_registered", args!(e, hooks[hk].clone(), mods[m].clone()));
         rep.check("ref", b == reg[hk].contains(&m), "C20/ref/compliance-modules/is_module_registered", || format!("hook {hk} module {m}: {b}"));
         rep.evaluations += 6;
     }
@@ -989,7 +1009,7 @@ pub fn run(cfg: &Cfg, rep: &mut Report) {
             (400, &|c, r, h| cti_registry(c, r, h, c.pick(200, 400), true)),
             (500, &|c, r, h| issuer_keys(c, r, h, c.pick(120, 250), 0)),
             (600, &|c, r, h| issuer_keys(c, r, h, 60, 1)),
-            (700, &|c, r, h| issuer_keys(c, r, h, 70, 2)),
+            (700, &|c, r, h| issuer_keys(c, r, h, 90, 2)),
             (800, &|c, r, h| token_binder(c, r, h, c.pick(60, 120), false)),
             (900, &|c, r, h| documents(c, r, h, c.pick(260, 500), false)),
             (1000, &|c, r, h| identities(c, r, h, c.pick(150, 300))),
@@ -1013,6 +1033,7 @@ pub fn run(cfg: &Cfg, rep: &mut Report) {
         }
     }
     rep.floor_on("key_reached_20_registries", 1, &["key_reached_20_registries"]);
+    rep.floor_on("listed_key_paired_again_at_full_topic", 3, &["listed_key_paired_again_at_full_topic"]);
     rep.floor_on("rules_at_limit", 1, &["rules_at_limit"]);
     rep.floor_on("topics_at_limit", 1, &["topics_at_limit"]);
     rep.floor_on("modules_at_limit", 1, &["modules_at_limit"]);
